@@ -861,6 +861,13 @@ class Interp(object):
                 return None
         elif a[0] == 'cat' and b[0] == 'cat' and len(a[1]) == len(b[1]):
             acc = list(zip(a[1], b[1]))
+        elif (a[0] == 'cat' and is_const(b)) or (b[0] == 'cat' and is_const(a)):
+            t, c = (a, b) if a[0] == 'cat' else (b, a)
+            if c[1] < 0 or c[1] >= (1 << (8 * len(t[1]))):
+                return None
+            acc = [(lane, C((c[1] >> (8 * k)) & 0xFF)) for k, lane in enumerate(t[1])]
+            acc = [(p_, q_) for p_, q_ in acc if not (is_const(p_) and p_[1] == q_[1])]
+            return acc if len(acc) >= 2 else None
         else:
             return None
         acc = [(p_, q_) for p_, q_ in acc if not (is_const(p_) and is_const(q_) and p_[1] == q_[1])]
@@ -936,6 +943,13 @@ class Interp(object):
                     if got == set(frozenset((st.canon(a_), st.canon(b_))) for a_, b_ in tp):
                         st.tags = dict(st.tags)
                         st.tags['pred:' + pname] = False
+                # "some byte pair differs" as a disequality of the two values the pairs are the bytes of
+                try:
+                    wa, wb = mk_cat(tuple(p_ for p_, _q in pairs)), mk_cat(tuple(q_ for _p, q_ in pairs))
+                    if st.canon(wa) != st.canon(wb):
+                        st.add_neq(wa, wb)
+                except Exception:
+                    pass
                 return st.add_neq(a, b)
             if truth:
                 return st.union(a, b)
